@@ -123,6 +123,14 @@ class C04(Property):
                 cases.append(Case("%sp%d" % (gid, j), opts, argv, tags={"role": "parse", "group": gid}))
                 if j < 2:
                     cases.append(Case("%st%d" % (gid, j), opts, argv, mode="twice", tags={"role": "twice", "group": gid}))
+                if j in (2, 3):
+                    # the whole history on one OptionParser: parse, completion at revisions 0/1/7/8/9, html/markdown/manpage; twice.
+                    # j == 2: no application name (Args::from without set_name), j == 3: with one
+                    hv = list(argv)
+                    if rng.random() < 0.5 and hv:
+                        hv[-1] = hv[-1][:rng.randrange(len(hv[-1]) + 1)]        # a partially typed last word
+                    cases.append(Case("%sh%d" % (gid, j), opts, hv, mode="history", name=(b"app" if j == 3 else None),
+                                      tags={"role": "history", "group": gid}))
             k += 1
         return cases
 
@@ -154,6 +162,23 @@ class C04(Property):
                 if cls in ("PANIC", "HANG", "EXIT", "MISSING"):
                     what = gen.unhx(ic[1]).decode("utf-8", "replace") if cls == "PANIC" and len(ic) > 1 else ""
                     out.append(Finding("violation", c, "run_inner did not return normally: %s %s" % (cls, what[:200])))
+            elif role == "history":
+                if ic is None or ic[0] != "HISTORY":
+                    out.append(Finding("violation", c, "a run did not return normally (parse / completion / documentation history): %s" % (ic,)))
+                    continue
+                parts = "\t".join(ic[1:]).split("\t|\t")
+                nontrivial.append(c.line())
+                half = len(parts) // 2
+                for st in parts:
+                    if "PANIC" in st.split("\t")[0]:
+                        what = gen.unhx(st.split("\t")[1]).decode("utf-8", "replace") if "\t" in st else ""
+                        out.append(Finding("violation", c, "a step of the history panicked: %s: PANIC %s" % (st.split("\t")[0], what[:200])))
+                        break
+                else:
+                    if len(parts) % 2 or parts[:half] != parts[half:]:
+                        k = next((i for i in range(half) if parts[i] != parts[half + i]), None)
+                        out.append(Finding("violation", c, "the second round on the same OptionParser differs from the first at step %s: %r vs %r"
+                                           % (k, parts[k][:200] if k is not None else None, parts[half + k][:200] if k is not None else None)))
             else:
                 if ic is None or ic[0] in ("HANG", "EXIT"):
                     out.append(Finding("violation", c, "run_inner did not return normally (repeated run): %s" % (ic,)))
@@ -166,7 +191,9 @@ class C04(Property):
                  "rule": "definitions of every shape (random levels; nested adjacent groups and adjacent commands; `any`; empty/pure/"
                          "fail/lonely alternatives/deep wrapper stacks/all hidden) that pass check_invariants in the implementation x "
                          "vectors from the grammar, mutated, or salted with odd byte strings (empty, lone dashes, `=` forms, invalid "
-                         "UTF-8, 400-letter clusters) x {one run, two runs on the same OptionParser}; non-trivial = every case run"}
+                         "UTF-8, 400-letter clusters) x {one run, two runs on the same OptionParser, a history on one OptionParser: parse, "
+                         "completion at revisions 0/1/7/8/9 with and without an application name and a partially typed last word, html/"
+                         "markdown/manpage -- twice, second round must repeat the first}; non-trivial = every case run"}
         return out, stats
 
     @staticmethod
